@@ -324,6 +324,23 @@ def check_wide(drv, ev, text, runs, rnd):
     if ints(st[8]) != [b - a for a, b in runs] or ints(st[9]) != [a for a, b in runs] or ints(st[10]) != [b for a, b in runs] \
             or ints(st[11]) != list(range(len(runs))):
         return bad("range length/low/high/pos wrong: %r %r %r %r for runs %r" % (ints(st[8]), ints(st[9]), ints(st[10]), ints(st[11]), runs))
+    # the first few members in both directions (all of them cannot be waited for): `elem` starts at the lowest
+    # address and counts up, `relem` at the highest and counts down, runs of any length
+    def first(rs, k, back):
+        out = []
+        for a, b in (reversed(rs) if back else rs):
+            for j in range(min(k - len(out), b - a)):
+                out.append(b - 1 - j if back else a + j)
+            if len(out) >= k:
+                break
+        return out
+    for word, back in (("elem", False), ("relem", True)):
+        rr = drv.run("%s %s" % (text, word), limit=5)
+        got = [int(s_[-1]["v"]) for s_ in rr.get("res", [])]
+        pos = [s_[-1]["p"] for s_ in rr.get("res", [])]
+        want = first(runs, 5, back)
+        if "error" in rr or got != want or pos != list(range(len(want))):
+            return bad("the first members yielded by %s are %r at positions %r, the set %s with %r" % (word, got, pos, "ends" if back else "starts", want))
     probes = sorted(set(p for a, b in runs for p in (a - 1, a, b - 1, b) if 0 <= p < U64) | set(rnd.sample(POINTS[:-1], 4)))
     q = "%s (|X| [(%s) (|A| X A ?contains A)] [(%s) (|A| X A !contains A)])" % (text, ", ".join(map(str, probes)), ", ".join(map(str, probes)))
     r = drv.run(q, limit=10)
